@@ -282,6 +282,11 @@ impl Checker for C14Checker {
                 let expr: ExprRef = serde_json::from_value(args["expr"].clone()).unwrap_or(ExprRef::Pool(0));
                 self.probe_round(s, &tag, &expr);
             }
+            "settle" => {
+                let op = Op::Speech;
+                let r = s.call(&op);
+                self.check_o2(s, &op, &r);
+            }
             "expect_equal" => {
                 let a = args["a"].as_str().unwrap_or("").to_string();
                 let b = args["b"].as_str().unwrap_or("").to_string();
@@ -426,7 +431,14 @@ pub fn case_trace(case: &Case) -> Trace {
         match case.mode {
             RepairMode::R1CheckAll => {
                 steps.push(Step::Env(EnvEvent::Repair { path: case.file.clone() }));
-                steps.push(ensure_step(MOUNT_A, target, check, false));
+                // one call lets the session notice the repaired prefs.yaml (it re-reads it, which drops preferences
+                // set through the API: known finding KF-prefs-reread, shown by its own directed scenario under C12);
+                // the application then re-applies its configuration. MathCAT resolves file *locations* only in
+                // set_rules_dir and on preference changes, so after a missing file or directory is put back the
+                // application initialises again (same directory).
+                steps.push(Step::Check { kind: "settle".into(), args: json!({}) });
+                let path_fault = matches!(case.kind, FaultKind::Deleted | FaultKind::DirMissing | FaultKind::DirIsFile);
+                steps.push(ensure_step(MOUNT_A, target, check, path_fault));
             }
             RepairMode::R2Repoint => steps.push(ensure_step(MOUNT_B, target, check, true)),
         }
@@ -686,7 +698,8 @@ pub fn random_trace(seed: u64, ctx: &Arc<ExecCtx>, reachable: &BTreeMap<String, 
         s.push(ensure_step(MOUNT_B, &cur, "Prefs", true));
     } else {
         s.push(Step::Env(EnvEvent::RepairAll));
-        s.push(ensure_step(MOUNT_A, &cur, "All", false));
+        s.push(Step::Check { kind: "settle".into(), args: json!({}) });
+        s.push(ensure_step(MOUNT_A, &cur, "All", true));
     }
     s.push(probe_step("final", *rng.pick(&exprs)));
     s.push(expect_ref_step("final", if repoint { MOUNT_B } else { MOUNT_A }));
